@@ -30,6 +30,11 @@ def fkey(row, f):
     return (row["file"], row["index"], f["kind"] + (":" + f["init"] if f.get("init") else ""), None if tr is None else round(tr, 4))
 
 
+# the default initialisation of the p-specified solve is only reached when the T-solve at that temperature succeeded:
+# its known failures are keyed per record (any reduced temperature), everything else per (record, T_r)
+PER_RECORD_KINDS = ("pure_p:none",)
+
+
 def known_index():
     idx = {}
     for e in V.load_known("C04"):
@@ -39,7 +44,16 @@ def known_index():
             trs = [None]
         for tr in trs:
             idx[(k.get("file"), k.get("index"), k.get("kind"), None if tr is None else round(tr, 4))] = e
+        if k.get("kind") in PER_RECORD_KINDS:
+            idx[(k.get("file"), k.get("index"), k.get("kind"), "*")] = e
     return idx
+
+
+def known_lookup(kidx, k):
+    e = kidx.get(k)
+    if e is None and k[2] in PER_RECORD_KINDS:
+        e = kidx.get((k[0], k[1], k[2], "*"))
+    return e
 
 
 def rel(a, b):
@@ -210,7 +224,7 @@ def run(ctx):
         for f in row["res"]["failures"]:
             n_fail += 1
             k = fkey(row, f)
-            e = kidx.get(k)
+            e = known_lookup(kidx, k)
             if e is not None:
                 seen_known.add(id(e))
                 V.report_known(ctx, e)
